@@ -181,7 +181,7 @@ func TestVerifC19Words(t *testing.T) {
 			Name: "c19-addtoquery", Quick: 40000, Thorough: 2000000,
 			Gen: c19AddGen, Check: c19AddCheck, MinNonTrivial: 5000,
 			NonTrivial: func(c c19AddCase) bool { return strings.ContainsAny(string(c.Word), " \t\"\\") },
-			Rule: "label:value words with blanks, tabs, quotes, backslashes, newlines, single quotes, added to empty / structured / piped / random old queries; SplitWords(addToQuery(q, w))[0] must be w. Non-trivial: w needs quoting.",
+			Rule:       "label:value words with blanks, tabs, quotes, backslashes, newlines, single quotes, added to empty / structured / piped / random old queries; SplitWords(addToQuery(q, w))[0] must be w. Non-trivial: w needs quoting.",
 		},
 	)
 }
